@@ -72,6 +72,19 @@ class ProdVal:
         self.result_set = False
 
 
+class PartialVal:
+    """functools.partial(func, *args)"""
+    __slots__ = ('func', 'args', 'kwargs')
+
+    def __init__(self, func, args, kwargs):
+        self.func = func
+        self.args = list(args)
+        self.kwargs = list(kwargs)
+
+    def __repr__(self):
+        return '<partial %r>' % (self.func,)
+
+
 class Closure:
     __slots__ = ('node', 'env', 'module', 'qual', 'cid', 'cls', 'outer')
 
@@ -99,6 +112,8 @@ def freeze(v, _depth=0):
         return ('prod', v.lhs)
     if isinstance(v, Closure):
         return ('closure', v.qual, v.cid)
+    if isinstance(v, PartialVal):
+        return ('partial', freeze(v.func), tuple(freeze(a) for a in v.args))
     if isinstance(v, tuple):
         return tuple(freeze(x, _depth + 1) for x in v)
     return v
@@ -257,6 +272,13 @@ class _NeedMoreChoices(Exception):
     pass
 
 
+class _Outer(_Signal):
+    """A return/break/continue of the code that consumes an inlined generator, travelling through the generator's frames
+    (so that its finally blocks run) without being mistaken for the generator's own control flow."""
+    def __init__(self, sig):
+        self.sig = sig
+
+
 class Frame:
     def __init__(self, module: Module, qual: str, cls: Optional[str], env=None, outer=None, self_name=None):
         self.module = module
@@ -309,6 +331,8 @@ class SymExec:
         self.closures: List[Closure] = []
         self.fn_stack: List[str] = []
         self.prod: Optional[ProdVal] = None
+        self.module_env: Dict[str, Dict[str, Any]] = {}     # module name -> bindings made while executing its body
+        self.yield_handlers: List[Tuple[Any, Any]] = []     # (generator frame, handler) of generators inlined at their consumer
 
     # ----------------------------------------------------------- path driver
     def run(self) -> List[Path]:
@@ -343,6 +367,7 @@ class SymExec:
         self.closures = []
         self.fn_stack = [self.fi.qual]
         self.prod = None
+        self.yield_handlers = []
 
     def _run_once(self, prefix) -> Path:
         self._reset(prefix)
@@ -353,10 +378,33 @@ class SymExec:
         else:
             fr = Frame(fi.module, fi.qual, fi.cls)
         self._bind_params(fr, fi.node, None, None, top=True)
+        self.top_frame = fr
         self.stack = [fi.qual]
         outcome: Tuple[str, Any]
         try:
-            v = self._exec_body_of(fi.node, fr)
+            if self.closure is None and isinstance(fi.node, ast.FunctionDef) and self.package_decorators(fi.module, fi.node) \
+                    and fi.qual in self.facts.functions:
+                self.stack = []
+                w = self.decorated_value(fi.module, fi.node, fi.qual)
+                a_ = fi.node.args
+                cargs = [fr.env[x.arg] for x in a_.posonlyargs + a_.args]
+                if a_.vararg:
+                    va = fr.env[a_.vararg.arg]
+                    if isinstance(va, tuple) and va[:1] == ('tuple',) and not any(isinstance(x, tuple) and x[:1] == ('star',) for x in va[1:]):
+                        cargs.extend(va[1:])
+                    else:
+                        cargs.append(('star', va))
+                ckw = [(x.arg, fr.env[x.arg]) for x in a_.kwonlyargs]
+                if a_.kwarg:
+                    ckw.append((None, fr.env[a_.kwarg.arg]))
+                if freeze(w) == ('ref', 'fnraw', fi.qual):
+                    # the decorators hand the function back unchanged (registration decorators)
+                    self.stack = [fi.qual]
+                    v = self._exec_body_of(fi.node, fr)
+                else:
+                    v = self.call(w, cargs, ckw, fi.node, fr)
+            else:
+                v = self._exec_body_of(fi.node, fr)
             outcome = ('return', v)
         except _Return as r:
             outcome = ('return', r.value)
@@ -366,6 +414,30 @@ class SymExec:
             outcome = ('genend', outcome[1])
         return Path(self.events, (outcome[0], freeze(outcome[1])), list(self.assump_log),
                     [c for c, _ in self.taken], dict(fr.env), list(self.closures), self.prod)
+
+    def package_decorators(self, module, node):
+        """Decorators of a def that are package functions (or calls of package functions); others are transparent here."""
+        out = []
+        for d in getattr(node, 'decorator_list', []):
+            target = d.func if isinstance(d, ast.Call) else d
+            r = self.facts.resolve_expr(module, target)
+            if r[0] == 'fn':
+                out.append(d)
+        return out
+
+    def decorated_value(self, module, node, qual, fr_mod=None):
+        """The callable a decorated def is bound to: decorators applied (innermost first) to the raw function."""
+        cur: Any = ('ref', 'fnraw', qual)
+        mfr = Frame(module, module.name + '.<decorators>', None)
+        n_events = len(self.events)
+        saved_ctx = list(self.ctx)
+        for d in reversed(self.package_decorators(module, node)):
+            dec = self.ev(d, mfr)
+            cur = self.call(dec, [cur], [], d, mfr)
+        # decoration happened at import time: what it did then is not an effect of the call being analysed
+        del self.events[n_events:]
+        self.ctx = saved_ctx
+        return cur
 
     def _exec_body_of(self, node, fr: Frame):
         fr.is_gen = _is_generator(node)
@@ -407,7 +479,9 @@ class SymExec:
                     fr.env[n] = self.arg_bind[n]
                 else:
                     fr.env[n] = ('param', n)
-            if names and fr.cls and not _is_static(node):
+            if names and fr.cls and _has_decorator(node, 'classmethod'):
+                fr.env[names[0]] = ('ref', 'cls', fr.cls)
+            elif names and fr.cls and not _is_static(node):
                 fr.self_name = names[0]
             if a.vararg:
                 fr.env[a.vararg.arg] = self.arg_bind.get(a.vararg.arg, ('param', '*' + a.vararg.arg))
@@ -418,9 +492,31 @@ class SymExec:
             return True
         # call binding
         args = list(args)
+        # pure forwarding  f(*args, **kwargs)  from a wrapper whose own parameters are *args/**kwargs: the callee sees the
+        # caller's arguments unchanged, so its parameters stand for themselves
+        stars = [x for x in args if isinstance(x, tuple) and x and x[0] == 'star']
+        dstars = [v for k, v in (kwargs if isinstance(kwargs, list) else list(dict(kwargs).items())) if k is None]
+        if (stars or dstars) and all(isinstance(x[1], tuple) and x[1][:1] == ('param',) and str(x[1][1]).startswith('*') for x in stars) \
+                and all(isinstance(v, tuple) and v[:1] == ('param',) and str(v[1]).startswith('**') for v in dstars) \
+                and len(stars) <= 1 and len(dstars) <= 1 and len(args) == len(stars) and \
+                all(k is None for k, _ in (kwargs if isinstance(kwargs, list) else list(dict(kwargs).items()))):
+            for n in names:
+                fr.env[n] = ('param', n)
+            if a.vararg:
+                fr.env[a.vararg.arg] = ('param', '*' + a.vararg.arg)
+            for x in a.kwonlyargs:
+                fr.env[x.arg] = ('param', x.arg)
+            if a.kwarg:
+                fr.env[a.kwarg.arg] = ('param', '**' + a.kwarg.arg)
+            if names and fr.cls and fr.self_name is None and not _is_static(node):
+                fr.self_name = names[0]
+            return True
         kwargs = dict(kwargs)
-        if any(isinstance(x, tuple) and x and x[0] == 'star' for x in args) or any(k is None for k in kwargs):
+        star_at = [i for i, x in enumerate(args) if isinstance(x, tuple) and x and x[0] == 'star']
+        if any(k is None for k in kwargs):
             return False
+        if star_at and not (a.vararg and star_at[0] >= len(names)):
+            return False        # a starred argument may only feed *args (every named parameter is bound before it)
         if names and fr.cls and fr.self_name is None and not _is_static(node):
             fr.self_name = names[0]
         for i, n in enumerate(names):
@@ -507,6 +603,25 @@ class SymExec:
             raise Unrecognised('augmented assignment target %s' % norm(t))
 
     def st_Return(self, st, fr):
+        if isinstance(st.value, ast.GeneratorExp) and self.package_generator(st.value.generators[0].iter, fr) is not None \
+                and not any(g.is_async for g in st.value.generators):
+            # `return (elt for x in gen() if cond)`: to the caller this function is the generator
+            #     for x in gen():  if cond:  yield elt
+            ge = st.value
+            body: List[ast.stmt] = [ast.Expr(value=ast.Yield(value=ge.elt))]
+            for g in reversed(ge.generators):
+                if g.ifs:
+                    test = g.ifs[0] if len(g.ifs) == 1 else ast.BoolOp(op=ast.And(), values=list(g.ifs))
+                    body = [ast.If(test=test, body=body, orelse=[])]
+                body = [ast.For(target=g.target, iter=g.iter, body=body, orelse=[], type_comment=None)]
+            for b_ in body:
+                for n in ast.walk(b_):
+                    if not hasattr(n, 'lineno'):
+                        ast.copy_location(n, st)
+                ast.fix_missing_locations(b_)
+            fr.is_gen = True
+            self.exec_block(body, fr)
+            raise _Return(('const', None))
         v = self.ev(st.value, fr) if st.value is not None else ('const', None)
         self.emit('return', st, value=v)
         raise _Return(v)
@@ -570,7 +685,23 @@ class SymExec:
             self.exec_block(st.orelse, fr)
 
     def st_For(self, st, fr):
+        pg = self.package_generator(st.iter, fr)
+        if pg is not None:
+            q, fi, func = pg
+
+            def body(v):
+                self.assign(st.target, v, fr, st)
+                self.exec_block(st.body, fr)
+            try:
+                if self.inline_generator(q, fi, func, st.iter, fr, self._consume(body)):
+                    self.exec_block(st.orelse, fr)
+                    return
+            except _Break:
+                return
         it = self.ev(st.iter, fr)
+        if isinstance(it, tuple) and it and it[0] == 'tuple' and len(it) > 1 and \
+                not any(isinstance(x, tuple) and x and x[0] == 'star' for x in it[1:]):
+            it = ListVal(list(it[1:]), self.fresh())
         if isinstance(it, ListVal) and it.concrete() and len(it.elts) <= 32:
             # unroll over a known spine
             try:
@@ -623,9 +754,24 @@ class SymExec:
         if is_const(c) and not c[1]:
             self.exec_block(st.orelse, fr)
             return
+        # a test that folds to a constant although it is not written as one (a counter over a known spine): run the loop
+        n_iter = 0
+        while is_const(c) and c[1] and not isinstance(st.test, ast.Constant) and n_iter < 32:
+            n_iter += 1
+            try:
+                self.exec_block(st.body, fr)
+            except _Continue:
+                pass
+            except _Break:
+                return
+            c = self.ev(st.test, fr)
+            if is_const(c) and not c[1]:
+                self.exec_block(st.orelse, fr)
+                return
         lid = self.fresh()
         if not (is_const(c) and c[1]):
             if self.choose(2, 'while') == 0:
+                self.emit('loop_skip', st, iter=None, lid=lid, cond=c)
                 self.exec_block(st.orelse, fr)
                 return
         self._summarise_loop(st, fr, lid, None)
@@ -637,6 +783,74 @@ class SymExec:
         raise _Continue()
 
     def st_With(self, st, fr):
+        # `with gen_cm(...):` where gen_cm is a package generator decorated as a context manager: the body runs at its yield
+        if len(st.items) == 1:
+            pg = self.package_generator(st.items[0].context_expr, fr)
+            if pg is not None and _has_decorator(pg[1].node, 'contextmanager'):
+                q, fi, func = pg
+                item = st.items[0]
+
+                cell = {}
+
+                def body(v):
+                    self.ctx.append(('with', cell.get('term', ('call', 0, freeze(func), (), ())), st))
+                    try:
+                        if item.optional_vars is not None:
+                            self.assign(item.optional_vars, v, fr, st)
+                        self.exec_block(st.body, fr)
+                    finally:
+                        self.ctx.pop()
+                if self.inline_generator(q, fi, func, item.context_expr, fr, self._consume(body), cell):
+                    return
+        # `with Guard(...):` where Guard is a package class with __enter__/__exit__: both run here, __exit__ as a finally
+        if len(st.items) == 1 and self.inline:
+            item = st.items[0]
+            cm = self.ev(item.context_expr, fr)
+            fcm = freeze(cm)
+            cmcls = fcm[1] if isinstance(fcm, tuple) and fcm and fcm[0] == 'new' else None
+            enter_q = self.facts.find_method(cmcls, '__enter__') if cmcls else None
+            exit_q = self.facts.find_method(cmcls, '__exit__') if cmcls else None
+            if enter_q in self.facts.functions and exit_q in self.facts.functions and enter_q not in self.stack \
+                    and exit_q not in self.stack and len(self.stack) < MAX_INLINE:
+                self.emit('with_enter', st, cm=cm, cm_class=cmcls)
+                v = self._inline_call(enter_q, [cm], [], item.context_expr, ('attr', fcm, '__enter__'))
+
+                def run_exit(exc_args):
+                    self.ctx.append(('finally', st))
+                    try:
+                        return self._inline_call(exit_q, [cm] + exc_args, [], st, ('attr', fcm, '__exit__'))
+                    finally:
+                        self.ctx.pop()
+                self.ctx.append(('with', fcm, st))
+                self.ctx.append(('try', st, ()))
+                try:
+                    try:
+                        if item.optional_vars is not None:
+                            self.assign(item.optional_vars, v, fr, st)
+                        self.exec_block(st.body, fr)
+                    finally:
+                        self.ctx.pop()
+                        self.ctx.pop()
+                except _Raise as r:
+                    res = run_exit([('unknown', 'exc-type'), freeze(r.exc) if not isinstance(r.exc, tuple) else r.exc, ('unknown', 'traceback')])
+                    if is_const(freeze(res)) and freeze(res)[1] and freeze(res)[1] is not None:
+                        return          # __exit__ returned a true constant: the exception is swallowed
+                    raise
+                except _Signal:
+                    run_exit([('const', None)] * 3)
+                    raise
+                run_exit([('const', None)] * 3)
+                return
+            frames = 0
+            self.emit('with_enter', st, cm=cm)
+            self.ctx.append(('with', fcm, st))
+            try:
+                if item.optional_vars is not None:
+                    self.assign(item.optional_vars, ('withas', fcm), fr, st)
+                self.exec_block(st.body, fr)
+            finally:
+                self.ctx.pop()
+            return
         frames = 0
         try:
             for item in st.items:
@@ -650,6 +864,72 @@ class SymExec:
         finally:
             for _ in range(frames):
                 self.ctx.pop()
+
+    def package_generator(self, call_node, fr: Frame):
+        """(qualified name, funcinfo, bound-args) if the expression is a call of a package generator function."""
+        if not isinstance(call_node, ast.Call) or not self.inline:
+            return None
+        try_func = call_node.func
+        # evaluate the callee expression without side effects on the path: names and attribute chains only
+        if not isinstance(try_func, (ast.Name, ast.Attribute)):
+            return None
+        n_ev = len(self.events)
+        func = self.ev(try_func, fr)
+        del self.events[n_ev:]
+        q = self.resolve_callee(func, fr)
+        if not q or q not in self.facts.functions or q in self.stack or len(self.stack) >= MAX_INLINE:
+            return None
+        fi = self.facts.functions[q]
+        if not isinstance(fi.node, ast.FunctionDef) or not _is_generator(fi.node):
+            return None
+        return q, fi, func
+
+    def inline_generator(self, q, fi, func, call_node, fr: Frame, handler, cell=None):
+        """Run the body of a package generator at its consumer: every `yield v` calls handler(v)."""
+        args = self._elts(call_node.args, fr)
+        kwargs = [(kw.arg, self.ev(kw.value, fr)) for kw in call_node.keywords]
+        ff = freeze(func)
+        bind_args = list(args)
+        if fi.cls and not _is_static(fi.node) and isinstance(ff, tuple) and ff[0] == 'attr' and not (
+                isinstance(ff[1], tuple) and ff[1][:2] == ('ref', 'cls')):
+            bind_args = [ff[1]] + bind_args
+        callee = Frame(fi.module, q, fi.cls)
+        ev_ = self.emit('call', call_node, func=ff, args=tuple(freeze(a) for a in args), kwargs=tuple((k, freeze(v)) for k, v in kwargs),
+                        resolved=q, handlers=self._handlers(), closure=None, recv_type=None, inlined=True, generator=True)
+        if not self._bind_params(callee, fi.node, bind_args, kwargs):
+            ev_.d['inlined'] = False
+            return False
+        if cell is not None:
+            cell['term'] = ('call', ev_.eid, ff, tuple(freeze(a) for a in args), tuple((k, freeze(v)) for k, v in kwargs))
+        callee.is_gen = True
+        self.stack.append(q)
+        self.fn_stack.append(q)
+        self.ctx.append(('inline', ev_.eid, q))
+        self.yield_handlers.append((callee, handler))
+        try:
+            try:
+                self.exec_block(fi.node.body, callee)
+            except _Return:
+                pass
+            except _Outer as o:
+                raise o.sig
+        finally:
+            self.yield_handlers.pop()
+            self.ctx.pop()
+            self.fn_stack.pop()
+            self.stack.pop()
+        return True
+
+    def _consume(self, body_fn):
+        """Wrap the consumer's body so that its own return/break/continue pass through the generator's frames intact."""
+        def handler(v):
+            try:
+                body_fn(v)
+            except _Continue:
+                return
+            except (_Return, _Break) as sig:
+                raise _Outer(sig)
+        return handler
 
     def _handler_descr(self, st: ast.Try, fr: Frame):
         out = []
@@ -695,7 +975,19 @@ class SymExec:
                 for n in _assigned_names(st.body):
                     fr.env[n] = ('unknown', 'maybe-assigned-in-try:%s' % n)
                 exc = ('exc', tuple(types), self.fresh())
-                self.emit('exc_edge', st, types=types, handler=h)
+                # the subscript reads of the body whose operands are plain names/attributes/constants, as they stand on
+                # entry to the try block: the candidates for the lookup that failed
+                subs = []
+                n_ev = len(self.events)
+                for n in (x for b_ in st.body for x in ast.walk(b_)):
+                    if isinstance(n, ast.Subscript) and isinstance(n.ctx, ast.Load) and all(
+                            isinstance(y, (ast.Name, ast.Attribute, ast.Constant, ast.Load)) for part in (n.value, n.slice) for y in ast.walk(part)):
+                        try:
+                            subs.append((freeze(self.ev(n.value, fr)), freeze(self.ev(n.slice, fr))))
+                        except (_Signal, Unrecognised):
+                            pass
+                del self.events[n_ev:]
+                self.emit('exc_edge', st, types=types, handler=h, subs=tuple(subs))
                 run_handler(h, exc)
             else:
                 self.ctx.append(('try', st, descr))
@@ -822,7 +1114,33 @@ class SymExec:
         k, q = r
         if k == 'const':
             return ('const', q)
+        if k == 'modvar':
+            t = self._const_tuple(q)
+            if t is not None:
+                return t
         return ('ref', k, q)
+
+    def _const_tuple(self, q: str):
+        """A module-level name bound once to a tuple display of constants (nested tuples allowed): the tuple itself.
+        Tuples cannot be modified, so the value read at any time is the value written by the assignment."""
+        cache = self.__dict__.setdefault('_const_tuples', {})
+        if q in cache:
+            return cache[q]
+        mod, _, var = q.rpartition('.')
+        m = self.facts.modules.get(mod)
+        res = None
+        if m is not None and var in m.assigns and len(m.assigns[var]) == 1 and isinstance(m.assigns[var][0], ast.Tuple) \
+                and not any(isinstance(n, ast.Global) and var in n.names for n in ast.walk(m.tree)):
+            def conv(n):
+                if isinstance(n, ast.Constant):
+                    return ('const', n.value)
+                if isinstance(n, ast.Tuple) and n.elts:
+                    xs = [conv(x) for x in n.elts]
+                    return None if any(x is None for x in xs) else ('tuple',) + tuple(xs)
+                return None
+            res = conv(m.assigns[var][0])
+        cache[q] = res
+        return res
 
     def load_name(self, name, fr: Frame, node):
         f: Optional[Frame] = fr
@@ -830,6 +1148,9 @@ class SymExec:
             if name in f.env and name not in f.globals_declared:
                 return f.env[name]
             f = f.outer
+        menv = self.module_env.get(fr.module.name)
+        if menv is not None and name in menv:
+            return menv[name]
         r = self.facts.resolve_name(fr.module, name)
         if r[0] == 'unbound':
             return ('unknown', 'unbound:%s' % name)
@@ -876,10 +1197,20 @@ class SymExec:
             for fn_, fv in b[2]:
                 if fn_ == name:
                     return fv
+        # @property of a package class
+        if fr is not None and fb is not None:
+            q = self.type_of(fb, fr)
+            if q:
+                mq = self.facts.find_method(q, name)
+                if mq and mq in self.facts.functions and _has_decorator(self.facts.functions[mq].node, 'property') \
+                        and mq not in self.stack and len(self.stack) < MAX_INLINE and self.inline:
+                    return self._inline_call(mq, [b], [], node, ('attr', fb, name))
         if isinstance(b, ProdVal):
             return ('attr', ('prod', b.lhs), name)
         if isinstance(b, tuple) and b and b[0] == 'prodsym' and name == 'type':
             return ('const', b[1])
+        if isinstance(b, tuple) and b and b[0] == 'prodsym' and name == 'value' and len(b) > 2 and self.prod is not None:
+            return self.prod.result if b[2] == 0 else self.prod.values[b[2] - 1]       # p.slice[k].value is p[k]
         return ('attr', fb if fb is not None else freeze(b), name)
 
     def ex_Subscript(self, e, fr):
@@ -907,12 +1238,17 @@ class SymExec:
             # p.slice[i] -> grammar symbol object
             if is_const(i) and isinstance(i[1], int) and self.prod is not None:
                 k = i[1]
+                if k < 0:
+                    k = len(self.prod.syms) + 1 + k
                 if k == 0:
-                    return ('prodsym', self.prod.lhs)
+                    return ('prodsym', self.prod.lhs, 0)
                 if 1 <= k <= len(self.prod.syms):
-                    return ('prodsym', self.prod.syms[k - 1])
+                    return ('prodsym', self.prod.syms[k - 1], k)
                 self.emit('prod_oob', node, index=i)
                 raise _Raise(('call', self.fresh(), ('ref', 'builtin', 'IndexError'), (), ()), node)
+            if isinstance(i, tuple) and i and i[0] == 'slice' and all(is_const(x) for x in i[1:4]) and self.prod is not None:
+                full = [('prodsym', self.prod.lhs, 0)] + [('prodsym', sy, k + 1) for k, sy in enumerate(self.prod.syms)]
+                return ListVal(full[slice(i[1][1], i[2][1], i[3][1])], self.fresh())
         if isinstance(b, ListVal) and b.concrete():
             if is_const(i) and isinstance(i[1], int) and not isinstance(i[1], bool):
                 if -len(b.elts) <= i[1] < len(b.elts):
@@ -936,17 +1272,51 @@ class SymExec:
                 pass
         # dispatch table kept at module level:  _OPS = {'+=': operator.iadd, ...};  _OPS[op]
         if isinstance(b, tuple) and b[:2] == ('ref', 'modvar') and is_const(i):
-            mod, _, var = b[2].rpartition('.')
-            m = self.facts.modules.get(mod)
-            vals = m.assigns.get(var) if m else None
-            if vals and len(vals) == 1 and isinstance(vals[0], ast.Dict):
-                for k, v in zip(vals[0].keys, vals[0].values):
-                    if isinstance(k, ast.Constant) and k.value == i[1] and not isinstance(v, ast.Lambda):
-                        r = self.facts.resolve_expr(m, v)
-                        if r[0] != 'unbound':
-                            return self.ref(r)
+            hit = self.modvar_table_entry(b[2], i[1])
+            if hit is not None:
+                return hit[1]
         self.emit('load_sub', node, obj=b, index=i, handlers=self._handlers())
         return ('sub', freeze(b), freeze(i))
+
+    def modvar_table(self, dotted):
+        """(module, [(constant key, value node)]) of a module-level dict display, following ** merges."""
+        mod, _, var = dotted.rpartition('.')
+        m = self.facts.modules.get(mod)
+        vals = m.assigns.get(var) if m else None
+        if not (vals and len(vals) == 1 and isinstance(vals[0], ast.Dict)):
+            return None
+        out = []
+        for k, v in zip(vals[0].keys, vals[0].values):
+            if k is None:
+                if isinstance(v, ast.Name):
+                    r = self.facts.resolve_name(m, v.id)
+                    if r[0] == 'modvar':
+                        sub = self.modvar_table(r[1])
+                        if sub is not None:
+                            out.extend((mm, kk, vv) for mm, kk, vv in sub)
+                            continue
+                return None
+            if not isinstance(k, ast.Constant):
+                return None
+            out.append((m, k.value, v))
+        return out
+
+    def modvar_table_entry(self, dotted, key):
+        """(found, value) for TABLE[key] of a module-level dict display; None when the table is not understood."""
+        tab = self.modvar_table(dotted)
+        if tab is None:
+            return None
+        for m, k, v in reversed(tab):
+            if k == key and type(k) == type(key):
+                if isinstance(v, ast.Lambda):
+                    fr = Frame(m, m.name + '.<table %s>' % dotted.rsplit('.', 1)[-1], None)
+                    c = Closure(v, {}, m, fr.qual + '[%r]' % (key,), self.fresh(), None, fr)
+                    return (True, c)
+                r = self.facts.resolve_expr(m, v)
+                if r[0] == 'unbound':
+                    return None
+                return (True, self.ref(r))
+        return (False, None)
 
     def ex_Slice(self, e, fr):
         return ('slice',
@@ -961,7 +1331,8 @@ class SymExec:
         out = []
         for x in elts:
             if isinstance(x, ast.Starred):
-                v = self.ev(x.value, fr)
+                # `*(f(x) for x in xs)` consumes the generator on the spot: same as the list comprehension
+                v = self._comp(x.value, fr, 'list') if isinstance(x.value, ast.GeneratorExp) else self.ev(x.value, fr)
                 if isinstance(v, ListVal):
                     out.extend(v.elts)
                 elif isinstance(v, tuple) and v and v[0] == 'tuple':
@@ -1110,6 +1481,17 @@ class SymExec:
                 return ('const', bool(res))
             except Exception:
                 pass
+        # identity of an object created on this path with something that existed before (a module-level object, a class,
+        # a function) or with another object created on this path
+        if op in ('is', 'is not'):
+            def fresh_obj(t):
+                return isinstance(t, tuple) and t and t[0] in ('new', 'list', 'dict', 'closure', 'obj') and not (t[0] in ('list', 'dict') and len(t) == 1)
+            def preexisting(t):
+                return isinstance(t, tuple) and t and t[0] == 'ref'
+            if (fresh_obj(fl) and preexisting(fr_)) or (fresh_obj(fr_) and preexisting(fl)):
+                return ('const', op == 'is not')
+            if fresh_obj(fl) and fresh_obj(fr_) and fl[0] == 'new' and fr_[0] == 'new' and fl[-1] != fr_[-1]:
+                return ('const', op == 'is not')
         # identity / equality against None etc. for values that are known objects
         if op in ('is', 'is not', '==', '!=') and (is_const(fl) or is_const(fr_)):
             other, c = (fl, fr_) if is_const(fr_) else (fr_, fl)
@@ -1216,6 +1598,9 @@ class SymExec:
         try:
             for gi, g in enumerate(e.generators):
                 it = self.ev(g.iter, inner if gi else fr)
+                if isinstance(it, tuple) and it and it[0] == 'tuple' and len(it) > 1 and \
+                        not any(isinstance(x, tuple) and x and x[0] == 'star' for x in it[1:]):
+                    it = ListVal(list(it[1:]), self.fresh())
                 if gi == 0 and len(e.generators) == 1 and not g.ifs and isinstance(it, ListVal) and it.concrete() \
                         and len(it.elts) <= 16 and kind in ('list', 'dict'):
                     concrete_iter = (g, it)
@@ -1267,6 +1652,14 @@ class SymExec:
 
     def ex_Yield(self, e, fr):
         v = self.ev(e.value, fr) if e.value is not None else ('const', None)
+        if self.yield_handlers and self.yield_handlers[-1][0] is fr:
+            handler = self.yield_handlers[-1][1]
+            hs = self.yield_handlers.pop()        # the consumer's code does not see this generator's handler
+            try:
+                handler(v)
+            finally:
+                self.yield_handlers.append(hs)
+            return ('const', None)
         self.emit('yield', e, value=v, handlers=self._handlers())
         return ('unknown', 'sent')
 
@@ -1281,9 +1674,23 @@ class SymExec:
         t = freeze(t)
         if not isinstance(t, tuple) or not t:
             return None
-        if t[0] == 'new':
+        if t[0] in ('new', 'obj'):
             return t[1]
         if t[0] == 'param':
+            # ('param', n) always names a parameter of the function under analysis, wherever the term has travelled
+            for f0 in (getattr(self, 'top_frame', None), fr):
+                f = f0
+                while f is not None:
+                    if t[1] in f.annotations:
+                        r = self.facts.resolve_expr(f.module, f.annotations[t[1]])
+                        if r[0] == 'cls':
+                            return r[1]
+                        break
+                    if f.self_name == t[1] and f.cls:
+                        return f.cls
+                    f = f.outer
+            return None
+        if t[0] == 'never-param':
             f: Optional[Frame] = fr
             while f is not None:
                 if t[1] in f.annotations:
@@ -1319,7 +1726,7 @@ class SymExec:
         f = freeze(f)
         if not isinstance(f, tuple) or not f:
             return None
-        if f[0] == 'ref' and f[1] == 'fn':
+        if f[0] == 'ref' and f[1] in ('fn', 'fnraw'):
             return f[2]
         if f[0] == 'attr':
             b = f[1]
@@ -1352,10 +1759,18 @@ class SymExec:
             here = f.cls
             return ('super', self._dynamic_cls(f), here, freeze(f.env.get(f.self_name)))
         func = self.ev(e.func, fr)
-        args = self._elts(e.args, fr)
+        if freeze(func) in (('ref', 'builtin', 'list'), ('ref', 'builtin', 'tuple')) and len(e.args) == 1 and not e.keywords \
+                and isinstance(e.args[0], ast.GeneratorExp):
+            args = [self._comp(e.args[0], fr, 'list')]      # list(genexp) / tuple(genexp): consumed completely, in order
+        else:
+            args = self._elts(e.args, fr)
         kwargs: List[Tuple[Optional[str], Any]] = []
         for kw in e.keywords:
             v = self.ev(kw.value, fr)
+            if kw.arg is None and isinstance(v, DictVal) and all(it[0] != 'dstar' and is_const(freeze(it[0])) and
+                                                                 isinstance(freeze(it[0])[1], str) for it in v.items):
+                kwargs.extend((freeze(k)[1], val) for k, val in v.items)      # **{known keys}
+                continue
             kwargs.append((kw.arg, v))
         return self.call(func, args, kwargs, e, fr)
 
@@ -1363,7 +1778,11 @@ class SymExec:
         return f.cls  # the static class; receivers are analysed per class
 
     def call(self, func, args, kwargs, node, fr: Frame):
+        if isinstance(func, PartialVal):
+            return self.call(func.func, list(func.args) + list(args), list(func.kwargs) + list(kwargs), node, fr)
         ff = freeze(func)
+        if ff == ('ref', 'ext', 'functools.partial') and args:
+            return PartialVal(args[0], args[1:], kwargs)
         fargs = tuple(freeze(a) for a in args)
         fkw = tuple((k, freeze(v)) for k, v in kwargs)
         # ---- folding of a few pure builtins on known values
@@ -1383,6 +1802,36 @@ class SymExec:
                 k = self._isinstance(args[0], fargs[1])
                 if k is not None:
                     return ('const', k)
+            def spine(a):
+                if isinstance(a, ListVal) and a.concrete():
+                    return list(a.elts)
+                if isinstance(a, tuple) and a and a[0] == 'tuple' and not any(isinstance(x, tuple) and x and x[0] == 'star' for x in a[1:]):
+                    return list(a[1:])
+                return None
+            # iteration helpers over a known spine give a known spine (they are only ever consumed by loops here)
+            if name == 'reversed' and len(args) == 1 and not kwargs and spine(args[0]) is not None:
+                return ListVal(list(reversed(spine(args[0]))), self.fresh())
+            if name == 'range' and 1 <= len(args) <= 3 and not kwargs and all(
+                    is_const(a) and isinstance(a[1], int) and not isinstance(a[1], bool) for a in fargs):
+                try:
+                    rng = range(*[a[1] for a in fargs])
+                    if len(rng) <= 32:
+                        return ListVal([('const', i) for i in rng], self.fresh())
+                except (ValueError, TypeError):
+                    pass
+            if name == 'enumerate' and len(args) == 1 and not kwargs and spine(args[0]) is not None:
+                return ListVal([('tuple', ('const', i), freeze(x) if not isinstance(x, (ListVal, DictVal, Closure, ProdVal)) else x)
+                                for i, x in enumerate(spine(args[0]))], self.fresh())
+            if name == 'zip' and len(args) >= 2 and not kwargs and all(spine(a) is not None for a in args):
+                cols = [spine(a) for a in args]
+                return ListVal([('tuple',) + tuple(freeze(x) if not isinstance(x, (ListVal, DictVal, Closure, ProdVal)) else x for x in row)
+                                for row in zip(*cols)], self.fresh())
+            if name == 'list' and len(args) == 1 and isinstance(args[0], tuple) and args[0] and args[0][0] == 'tuple':
+                return ListVal(list(args[0][1:]), self.fresh())
+            if name == 'tuple' and len(args) == 1 and isinstance(args[0], ListVal):
+                return ('tuple',) + tuple(freeze(x) for x in args[0].elts)
+            if name == 'tuple' and len(args) == 1 and isinstance(args[0], tuple) and args[0] and args[0][0] == 'tuple':
+                return args[0]
             if name in ('list', 'tuple') and len(args) == 1 and isinstance(args[0], ListVal) and name == 'list':
                 self.emit('call', node, func=ff, args=fargs, kwargs=fkw, resolved=None, result=None,
                           handlers=self._handlers())
@@ -1394,6 +1843,14 @@ class SymExec:
             if name == 'range' and args and all(is_const(a) and isinstance(a[1], int) for a in args) \
                     and len(range(*[a[1] for a in args])) <= 16:
                 return ListVal([('const', i) for i in range(*[a[1] for a in args])], self.fresh())
+        # ---- TABLE.get(const[, default]) on a module-level dispatch table
+        if isinstance(ff, tuple) and ff and ff[0] == 'attr' and ff[2] == 'get' and isinstance(ff[1], tuple) and ff[1][:2] == ('ref', 'modvar') \
+                and args and is_const(freeze(args[0])) and not kwargs:
+            hit = self.modvar_table_entry(ff[1][2], freeze(args[0])[1])
+            if hit is not None:
+                if hit[0]:
+                    return hit[1]
+                return args[1] if len(args) > 1 else ('const', None)
         # ---- the operator module spells the operators as functions
         if isinstance(ff, tuple) and ff[:2] == ('ref', 'ext') and ff[2].startswith('operator.') and not kwargs:
             name = ff[2].split('.', 1)[1]
@@ -1451,13 +1908,38 @@ class SymExec:
             callee_frame = Frame(func.module, func.qual, func.cls, env={}, outer=func.outer)
             qual = func.qual
             bind_args = list(args)
+        elif resolved and self.inline and resolved in self.facts.functions and not (isinstance(ff, tuple) and ff[:2] == ('ref', 'fnraw')) \
+                and isinstance(self.facts.functions[resolved].node, ast.FunctionDef) \
+                and self.package_decorators(self.facts.functions[resolved].module, self.facts.functions[resolved].node) \
+                and ('deco:' + resolved) not in self.stack and len(self.stack) < MAX_INLINE:
+            fi = self.facts.functions[resolved]
+            self.stack.append('deco:' + resolved)
+            try:
+                w = self.decorated_value(fi.module, fi.node, resolved)
+                eid_holder.d['inlined'] = True
+                eid_holder.d['via_decorator'] = True
+                bind_args = list(args)
+                if fi.cls and not _is_static(fi.node) and isinstance(ff, tuple) and ff[0] == 'attr' and not (
+                        isinstance(ff[1], tuple) and ff[1][:2] == ('ref', 'cls')):
+                    bind_args = [ff[1][3] if ff[1][:1] == ('super',) else ff[1]] + bind_args
+                v = self.call(w, bind_args, kwargs, node, fr)
+                eid_holder.d['result'] = v
+                return v
+            finally:
+                self.stack.pop()
         elif resolved and self.inline and resolved in self.facts.functions:
             fi = self.facts.functions[resolved]
             qual = resolved
             target_node = fi.node
             callee_frame = Frame(fi.module, qual, fi.cls)
             bind_args = list(args)
-            if fi.cls and not _is_static(fi.node):
+            if fi.cls and _has_decorator(fi.node, 'classmethod'):
+                recvc = ff[1] if isinstance(ff, tuple) and ff[0] == 'attr' else None
+                if isinstance(recvc, tuple) and recvc[:2] == ('ref', 'cls'):
+                    bind_args = [recvc] + bind_args
+                else:
+                    bind_args = [('ref', 'cls', fi.cls)] + bind_args
+            elif fi.cls and not _is_static(fi.node):
                 # bound call: receiver first
                 if isinstance(ff, tuple) and ff[0] == 'attr':
                     b = ff[1]
@@ -1492,6 +1974,32 @@ class SymExec:
         eid_holder.d['inlined'] = False
         eid_holder.d['result'] = result
         return result
+
+    def _inline_call(self, qual, args, kwargs, node, func_term):
+        fi = self.facts.functions[qual]
+        callee = Frame(fi.module, qual, fi.cls)
+        ev_ = self.emit('call', node, func=freeze(func_term), args=tuple(freeze(a) for a in args), kwargs=tuple((k, freeze(v)) for k, v in kwargs),
+                        resolved=qual, handlers=self._handlers(), closure=None, recv_type=None)
+        if not self._bind_params(callee, fi.node, list(args), kwargs):
+            ev_.d['inlined'] = False
+            res = ('call', ev_.eid, freeze(func_term), tuple(freeze(a) for a in args), ())
+            ev_.d['result'] = res
+            return res
+        ev_.d['inlined'] = True
+        self.stack.append(qual)
+        self.fn_stack.append(qual)
+        self.ctx.append(('inline', ev_.eid, qual))
+        try:
+            try:
+                v = self._exec_body_of(fi.node, callee)
+            except _Return as r:
+                v = r.value
+            ev_.d['result'] = v
+            return v
+        finally:
+            self.ctx.pop()
+            self.fn_stack.pop()
+            self.stack.pop()
 
     def _isinstance(self, v, cls_term) -> Optional[bool]:
         """Fold isinstance for values whose kind is known (grammar symbols, literals)."""
@@ -1539,6 +2047,31 @@ class SymExec:
         fields = self.facts.all_fields(qual)
         is_dc = any(self.facts.cls(q).is_dataclass for q in self.facts.mro(qual) if q in self.facts.classes)
         init = self.facts.find_method(qual, '__init__')
+        if init and init in self.facts.functions and self.inline and init not in self.stack and len(self.stack) < MAX_INLINE:
+            # run the explicit __init__ and read the fields off the attribute stores on self
+            fi = self.facts.functions[init]
+            obj = ('obj', qual, eid)
+            callee = Frame(fi.module, init, fi.cls)
+            if self._bind_params(callee, fi.node, [obj] + list(args), kwargs):
+                before = len(self.events)
+                self.stack.append(init)
+                self.fn_stack.append(init)
+                self.ctx.append(('inline', eid, init))
+                try:
+                    try:
+                        self._exec_body_of(fi.node, callee)
+                    except _Return:
+                        pass
+                finally:
+                    self.ctx.pop()
+                    self.fn_stack.pop()
+                    self.stack.pop()
+                fields_: Dict[str, Any] = {}
+                for ev_ in self.events[before:]:
+                    if ev_.kind == 'store_attr' and freeze(ev_.obj) == obj:
+                        fields_[ev_.attr] = freeze(ev_.value)
+                        ev_.d['init_field'] = True
+                return ('new', qual, tuple(fields_.items()), eid)
         if not is_dc or init:
             return ('new', qual, tuple(('arg%d' % i, freeze(a)) for i, a in enumerate(args)) +
                     tuple((k, freeze(v)) for k, v in kwargs), eid)
@@ -1627,11 +2160,17 @@ def _walk_no_nested(node):
         todo.extend(ast.iter_child_nodes(n))
 
 
-def _is_static(node) -> bool:
+def _has_decorator(node, name: str) -> bool:
     for d in getattr(node, 'decorator_list', []):
-        if isinstance(d, ast.Name) and d.id == 'staticmethod':
+        if isinstance(d, ast.Name) and d.id == name:
+            return True
+        if isinstance(d, ast.Attribute) and d.attr == name:
             return True
     return False
+
+
+def _is_static(node) -> bool:
+    return _has_decorator(node, 'staticmethod')
 
 
 def _assigned_names(stmts) -> List[str]:
